@@ -52,7 +52,7 @@ func c06(r *hx.Run) {
 	fx.Quiet()
 	client, v := stdClient()
 	delta := v.P.MaxOperationTimeDelta
-	r.Rule = "for every history of <=3 (thorough: <=4 over a sub-alphabet) anchored operations (legitimate alphabet, published and unpublished, non-monotone coordinates) x every cut time T in {pre-epoch, 0..maxTime+1} x every version id present or unknown x every single later-anchored extension: Resolve(history, WithVersionTime/WithVersionID) on the real processor must equal Resolve over the truncated history on the real processor (metamorphic) and the reference model; unknown version id / empty truncation must be an error. Non-trivial: the cut removes at least one and keeps at least one operation."
+	r.Rule = "for every history of <=3 (thorough: <=4 over a sub-alphabet) anchored operations (legitimate alphabet, published and unpublished, non-monotone coordinates) x every cut time T in {pre-epoch, 0..maxTime+1} x every version id present or unknown x every single later-anchored extension (placed in the store, and passed by the caller through WithAdditionalOperations before and after the version option): Resolve(history, WithVersionTime/WithVersionID) on the real processor must equal Resolve over the truncated history on the real processor (metamorphic) and the reference model; unknown version id / empty truncation must be an error. Non-trivial: the cut removes at least one and keeps at least one operation."
 	pool := fx.NewPool(fx.Ed25519, fx.SHA256, "ok")
 	alpha := []string{"C", "C~h", "U01", "U01b", "U12", "U01~w", "U01~p", "R01", "R12", "V01", "D0", "D1", "Fc(U01)", "U10"}
 	grid := []Coord{{1, 0}, {1, 2}, {2, 0}, {2, 1}, {3, 0}}
@@ -136,6 +136,16 @@ func c06(r *hx.Run) {
 							r.Violation("version-time-extension:"+diffFields(got2.R, got.R), caseID+"|ext="+x,
 								fmt.Sprintf("history %v at T=%d changes when %s is anchored later at %d.0\n  before: %s\n  after : %s", placedDesc(placed), T, x, maxT+1, got.R, got2.R), nil)
 						}
+						// the same extension supplied by the caller as an additional operation, option before / after the version option
+						add := document.WithAdditionalOperations([]*operation.AnchoredOperation{extended[len(extended)-1].Anchored(pool.Suffix)})
+						for oi, opts := range [][]document.ResolutionOption{{add, document.WithVersionTime(ts)}, {document.WithVersionTime(ts), add}} {
+							got3 := projectHist(ResolveImpl(client, pool.Suffix, placed, opts...))
+							r.Eval()
+							if got3 != got {
+								r.Violation("version-time-additional-ops:"+diffFields(got3.R, got.R), fmt.Sprintf("%s|add=%s|order=%d", caseID, x, oi),
+									fmt.Sprintf("history %v at T=%d changes when %s (anchored later at %d.0) is passed as an additional operation (option order %d)\n  before: %s\n  after : %s", placedDesc(placed), T, x, maxT+1, oi, got.R, got3.R), nil)
+							}
+						}
 					}
 				}
 			}
@@ -203,6 +213,15 @@ func c06(r *hx.Run) {
 						if got2 != got {
 							r.Violation("version-id-extension:"+diffFields(got2.R, got.R), caseID+"|ext="+x,
 								fmt.Sprintf("history %v at versionId %s changes when %s is anchored later\n  before: %s\n  after : %s", placedDesc(placed), V, x, got.R, got2.R), nil)
+						}
+						add := document.WithAdditionalOperations([]*operation.AnchoredOperation{extended[len(extended)-1].Anchored(pool.Suffix)})
+						for oi, opts := range [][]document.ResolutionOption{{add, document.WithVersionID(V)}, {document.WithVersionID(V), add}} {
+							got3 := projectHist(ResolveImpl(client, pool.Suffix, placed, opts...))
+							r.Eval()
+							if got3 != got {
+								r.Violation("version-id-additional-ops:"+diffFields(got3.R, got.R), fmt.Sprintf("%s|add=%s|order=%d", caseID, x, oi),
+									fmt.Sprintf("history %v at versionId %s changes when %s (anchored later) is passed as an additional operation (option order %d)\n  before: %s\n  after : %s", placedDesc(placed), V, x, oi, got.R, got3.R), nil)
+							}
 						}
 					}
 				}
